@@ -226,7 +226,13 @@ def run(tier: str, seed: int) -> Result:
                          with_tags=True)
     if rng.random() < 0.6 and not isinstance(root, config_lib.Buildable):
       root = fdl.Config(l2.fa, root, b=root)
-    if rng.random() < 0.4:
+    if rng.random() < 0.12:
+      # the root itself carries a tag on a positional-only slot that has no value yet
+      root = rng.choice([fdl.Config, fdl.Partial])(l2.fh, root, t=[root])
+      fdl.add_tag(root, 1, rng.choice(l2.TAGS))
+      if rng.random() < 0.5:
+        fdl.add_tag(root, "t", rng.choice(l2.TAGS))
+    if rng.random() < 0.6:
       from harness import c14
       c14.tag_positional(rng, root)    # tags on positional (index) arguments, set or not, and on **kwargs entries
     one_case(rng, res, intern, stream, root, f"cfg#{i}")
